@@ -15,7 +15,8 @@ def main():
     jobs = [Job(P + 'VerifC12Join', (), cfg=cfg)]
     for f in range(5):
         jobs.append(Job(P + 'VerifC12Tamper', (f,), cfg=cfg))
-    jobs.append(Job(P + 'VerifC12Descriptor', (), cfg=cfg))
+    jobs.append(Job(P + 'VerifC12Descriptor', (0,), cfg=cfg))
+    jobs.append(Job(P + 'VerifC12Descriptor', (1,), cfg=cfg, max_paths=100000))
     jobs.append(Job(P + 'VerifC12Witness', (), witness=True, cfg=cfg))
     res = chk.run_jobs(jobs)
     finish(chk, res, t,
